@@ -1286,6 +1286,10 @@ func stringToTTL(token string) (uint32, bool) {
 		case '0', '1', '2', '3', '4', '5', '6', '7', '8', '9':
 			i *= 10
 			i += uint(c) - '0'
+			if i > math.MaxUint32 {
+				// Stop before the accumulator itself can wrap around.
+				return 0, false
+			}
 		default:
 			return 0, false
 		}
